@@ -25,7 +25,7 @@ func judgeC01(p *rm.Parsed, mq rm.Request, r rm.Router, o rs.Outcome, lg *rs.Log
 	if !ok {
 		return "unknown route id"
 	}
-	decl := p.T.Svcs[si].Routes[ri]
+	decl := p.T.Svcs[si].Effective(p.T.Svcs[si].Routes[ri])
 	if decl.Method != mq.Method {
 		return fmt.Sprintf("route #%d has method %s but the request method is %s", inv.ID, decl.Method, mq.Method)
 	}
